@@ -368,7 +368,7 @@ def name_of(x):
     if isinstance(x, tuple):
         return x[1], None
     if head(x) == 'rename':
-        return x[1][1], x[2][1]
+        return x[1][1], unescape(x[2][1])       # the original name is an EDIF string: %34% is the double quote
     if head(x) == 'array':
         return name_of(x[1])
     raise SexpError('bad nameDef %r' % (x,))
